@@ -2235,7 +2235,7 @@ class AstEval:
 
     async def eval(self, new_state_vars: dict[str, Any] | None = None, merge_local: bool = False) -> None:
         """Execute parsed code, with the optional state variables added to the scope."""
-        if new_state_vars:
+        if new_state_vars is not None:
             if not merge_local:
                 self.local_sym_table = {}
             self.local_sym_table.update(new_state_vars)
